@@ -16,7 +16,7 @@ EXPLANATION = (
     'Static analysis by interpretation of the source (nothing imported or executed by CPython): shortest_distance for every ordered pair, all_shortest_distances for cut-offs below / at / above the distances, prepare / prepared_shortest_distance (also prepared twice with a growing cut-off) are walked by tlint.orders on small multigraphs and compared with Floyd-Warshall on the permitted arcs; priority_dict is interpreted with its heap on every sequence of at most five assign / re-assign / pop operations over three keys against a plain dictionary.')
 ASSUMPTIONS = ["edge weights are non-negative (precondition of the property)",
                "Dijkstra mode (routing_mode != A*): the heuristic term is 0 (checked: only assigned under routing_mode == 1)"]
-TECHNIQUE = "abstract interpretation of the repository's Network / Node / Edge / priority_dict classes by the checker's AST interpreter on ~190 small multigraphs (orientations, zero weights, parallel edges, isolated nodes, string ids) against Floyd-Warshall on the permitted arcs, and of the priority queue on every operation sequence up to length 5 (bounded case domains)"
+TECHNIQUE = "abstract interpretation of the repository's Network / Node / Edge / priority_dict classes by the checker's AST interpreter on ~190 small multigraphs (orientations, zero weights, parallel edges, isolated nodes, string / empty-string / 0 / -1 ids; successive all-pairs calls sharing defaults; prepare with cut-offs incl. 0) against Floyd-Warshall on the permitted arcs, and of the priority queue on every operation sequence up to length 5 (bounded case domains)"
 
 
 def edge_consts(ctx):
